@@ -262,6 +262,15 @@ def execute(cfg: dict, *, stop_at_first=True, trace=False) -> RunResult:
         res.violations.append(Violation(PROP, inv, spec.name, symptom, detail, op.get("id", -1), _opk(op), site,
                                         core.config_tags(cfg)))
 
+    # multi.CCA(pca=True) has no sign convention and no random_state (known finding): a difference by the sign of
+    # whole modes is recorded once, the run goes on with the sign of whole modes left open, so that everything else
+    # such a run does is still checked (the runner reports the first violation no known finding covers)
+    signfree = spec.name == "MultiCCA" and bool(cfg["params"].get("pca"))
+    soft = {"n": 0}
+
+    def hard():
+        return [v for v in res.violations if not (signfree and v.symptom == "values:signflip")]
+
     def mirrored(flag):
         # deferred sorting is documented behaviour: only classes that sort in _post_compute mirror compute()
         return bool(flag) if spec.name == "POP" else False
@@ -296,6 +305,11 @@ def execute(cfg: dict, *, stop_at_first=True, trace=False) -> RunResult:
                 sym = core.symptom_of(diffs)
                 if sym == "values" and not oracle.compare(got, want, tol, path=_qname(q), relax={"sign": True}):
                     sym = "values:signflip"     # equal up to the sign of whole modes
+                if signfree and sym == "values:signflip":
+                    if not soft["n"]:
+                        violate(inv, sym, f"{target}.{_qname(q)}: " + "; ".join(diffs[:3]), op)
+                    soft["n"] += 1
+                    continue
                 violate(inv, sym, f"{target}.{_qname(q)}: " + "; ".join(diffs[:3]), op)
                 return
 
@@ -310,7 +324,7 @@ def execute(cfg: dict, *, stop_at_first=True, trace=False) -> RunResult:
         qs = models.draw_queries(prng, spec, cfg["fits"][st["m_fit"]], cfg["new"][st["m_fit"]], n_modes, k=k,
                                  serde=(inv == "H4" and prng.random() < 0.5))
         check_queries("m", qs, op, inv)
-        if st["r_valid"] and not res.violations and prng.random() < 0.5:
+        if st["r_valid"] and not hard() and prng.random() < 0.5:
             rq = models.draw_queries(prng, spec, cfg["fits"][st["m_fit"]], cfg["new"][st["m_fit"]],
                                      int(cfg["rot_params"]["n_modes"]), k=1, rotator=True)
             check_queries("r", rq, op, inv)
@@ -402,7 +416,7 @@ def execute(cfg: dict, *, stop_at_first=True, trace=False) -> RunResult:
                     if op.get("bad"):
                         counts["bad_calls"] += 1
                     check_queries(tgt, [op["q"]], op)
-                    if not res.violations:
+                    if not hard():
                         probe(op, k=1)
             elif kind in ("compute", "serialize"):
                 tgt = op["target"]
@@ -430,7 +444,7 @@ def execute(cfg: dict, *, stop_at_first=True, trace=False) -> RunResult:
                             st["m_computed"] = True
                         else:
                             st["r_computed"] = True
-                    if not res.violations:
+                    if not hard():
                         probe(op, k=2)
             elif kind == "rot_fit":
                 if st["m_fit"] is None:
@@ -458,7 +472,7 @@ def execute(cfg: dict, *, stop_at_first=True, trace=False) -> RunResult:
                         st["r_valid"] = False
                         res.log.append(f"  rot_fit under an injected fault -> {out.kind()}")
                         probe(op, k=3, inv="H4")
-                        if not res.violations:
+                        if not hard():
                             check_queries("m", [{"q": "params"}], op, inv="H4")
                         # (falls through to the common end-of-operation checks)
                         out = None
@@ -482,14 +496,14 @@ def execute(cfg: dict, *, stop_at_first=True, trace=False) -> RunResult:
                         st.update(r=r, r_valid=True, r_key=key, r_computed=bool(cfg["rot_params"]["compute"]))
                         # H4: the base model's own results and labels are intact
                         probe(op, k=3, inv="H4")
-                        if not res.violations:
+                        if not hard():
                             rq = models.draw_queries(seeds.stream(seed, f"rotq/{op['id']}"), spec, cfg["fits"][st["m_fit"]],
                                                      cfg["new"][st["m_fit"]], int(cfg["rot_params"]["n_modes"]), k=2,
                                                      rotator=True, serde=False)
                             check_queries("r", rq, op, "H2" if op.get("reuse") else "H1")
-                        if not res.violations:
+                        if not hard():
                             check_queries("m", [{"q": "params"}], op, inv="H4")
-                        if not res.violations and spec.family != "multi":
+                        if not hard() and spec.family != "multi":
                             check_queries("m", [{"q": "serde", "sub": {"q": "call", "name": "scores", "kw": {}}}], op, inv="H4")
             elif kind == "boot_fit":
                 if st["m_fit"] is None:
@@ -523,7 +537,7 @@ def execute(cfg: dict, *, stop_at_first=True, trace=False) -> RunResult:
                 counts["other_fits"] = counts.get("other_fits", 0) + 1
                 res.log.append(f"  other object fit({op['fit']}) -> {oo.kind()}")
                 del other
-                if not res.violations:
+                if not hard():
                     probe(op, k=3)
             elif kind == "query_fault":
                 tgt = op["target"]
@@ -547,7 +561,7 @@ def execute(cfg: dict, *, stop_at_first=True, trace=False) -> RunResult:
                         raise sched.SimHarnessError(out.exc_msg)
                     # whatever happened to that call, later answers are those of the fresh model
                     check_queries(tgt, [op["q"]], op)
-                    if not res.violations:
+                    if not hard():
                         probe(op, k=2)
             elif kind == "compute_fault":
                 if st["m_fit"] is None or st["m_computed"]:
@@ -568,20 +582,20 @@ def execute(cfg: dict, *, stop_at_first=True, trace=False) -> RunResult:
                         st["m_computed"] = True
                     else:
                         violate("H1", f"outcome:{out.kind()}", f"compute() under an injected {op.get('exc')} raised {out.kind()}: {out.exc_msg[:200]}", op)
-                    if not res.violations:
+                    if not hard():
                         probe(op, k=2)
             else:
                 raise sched.SimHarnessError(f"unknown op {kind}")
 
             # H3 after every operation: nothing the user handed in was modified
-            if not res.violations:
+            if not hard():
                 bad_inputs = env.check_untouched()
                 if bad_inputs:
                     violate("H3", "input-modified", "user input modified: " + "; ".join(bad_inputs[:3]), op)
-            if sim.monitor_failures and not res.violations:
+            if sim.monitor_failures and not hard():
                 violate("PURITY", "task", sim.monitor_failures[0], op)
             cov["states"].add(_abstract(st, cfg))
-            if res.violations and stop_at_first:
+            if hard() and stop_at_first:
                 break
 
     sim.stats.merge_into(counts)
